@@ -265,10 +265,39 @@ func (vc *VC) mergeStates(sts []*State) *State {
 	for _, s := range sts {
 		pcs = append(pcs, s.pc)
 	}
-	m := &State{heap: map[string]Term{}, defers: sts[0].defers}
-	for _, s := range sts[1:] {
-		if len(s.defers) != len(sts[0].defers) {
-			vc.unsupportedf("conditional defer")
+	m := &State{heap: map[string]Term{}}
+	// deferred calls: the union over the incoming paths, each guarded by the paths that registered it
+	{
+		same := true
+		for _, s := range sts[1:] {
+			if len(s.defers) != len(sts[0].defers) {
+				same = false
+				break
+			}
+			for i := range s.defers {
+				if s.defers[i].d != sts[0].defers[i].d || s.defers[i].guard != sts[0].defers[i].guard {
+					same = false
+				}
+			}
+		}
+		if same {
+			m.defers = sts[0].defers
+		} else {
+			idx := map[*ssa.Defer]int{}
+			for _, s := range sts {
+				for _, de := range s.defers {
+					g := and(s.pc, de.guard)
+					if k, ok := idx[de.d]; ok {
+						m.defers[k].guard = or(m.defers[k].guard, g)
+					} else {
+						idx[de.d] = len(m.defers)
+						m.defers = append(m.defers, deferEntry{d: de.d, guard: g, args: de.args})
+					}
+				}
+			}
+			for k := range m.defers {
+				m.defers[k].guard = vc.define("dg", "Bool", m.defers[k].guard)
+			}
 		}
 	}
 	m.pc = vc.define("pc", "Bool", or(pcs...))
